@@ -15,6 +15,8 @@ package metadata
 
 import (
 	"errors"
+	"fmt"
+	"math"
 	"reflect"
 	"strconv"
 	"strings"
@@ -81,6 +83,9 @@ func toTimeDurationArrayHookFunc() mapstructure.DecodeHookFunc {
 				seconds, errParse := strconv.ParseInt(input, 10, 0)
 				if errParse != nil {
 					return nil, errors.Join(err, errParse)
+				}
+				if seconds > math.MaxInt64/int64(time.Second) || seconds < math.MinInt64/int64(time.Second) {
+					return nil, fmt.Errorf("duration %q overflows time.Duration", input)
 				}
 				val = time.Duration(seconds * int64(time.Second))
 			}
